@@ -93,7 +93,9 @@ class ReorgDriver(IndexDriver):
                 self.probe('admin_reorg.skipped_overlap')
                 return
             h = srv.bp.state.height
-            cap = min(w.k['reorg_limit'] - (max(self.hmax, h) - h), h)
+            # ... and, like a fork, at most half the chain: a daemon-side fork that lands first lowers the height the
+            # count will be applied to
+            cap = min(w.k['reorg_limit'] - (max(self.hmax, h) - h), h // 2)
             n = min(op['n'], max(cap, 0))
             c = self.admin()
             if c is None:
